@@ -172,14 +172,59 @@ def run(rep: Report, tier: str) -> None:
     fld = c.args[1] if len(c.args) > 1 else {k.arg: k.value for k in c.keywords}.get("output_path")
     if not (isinstance(fld, ast.Name) and fld.id == "output_folder"):
         rep.add(Finding("R14.3", "R14.3/scalar-folder", eq.module.rel, c.lineno, eq.qualname, "scalar file not written to the caller's output_folder"))
-    # save_scalars_duckdb writes every entry: loop over scalars.items() with one writerow per entry
+    # save_scalars_duckdb writes one row per entry with the value as text - absence (None) is the only empty field (function evaluated)
     ss = P.func(f"{IO}.save_scalars_duckdb")
-    loops = [n for n in walk_no_nested(ss.node) if isinstance(n, ast.For) and "scalars.items()" in src(n.iter)]
-    rep.instance("R14.3", "scalar-writer", nontrivial=True)
-    if not loops or not any(isinstance(x, ast.Call) and _callee_name(x) == "writerow" for x in ast.walk(loops[0])) or \
-            any(isinstance(x, (ast.Continue, ast.Break)) for x in ast.walk(loops[0])):
-        rep.add(Finding("R14.3", "R14.3/scalar-writer", ss.module.rel, ss.node.lineno, ss.qualname,
-                        "save_scalars_duckdb must write one row per entry of its argument (no skipping)"))
+    from sa.e6 import ExternalObj as _EO, Interp as _I, Raised as _Ra, Unmodelled as _Un
+    rows: List[Any] = []
+
+    class _W:
+        def writerow(self, r: Any) -> None:
+            rows.append(list(r))
+
+        def writerows(self, rs: Any) -> None:
+            rows.extend(list(r) for r in rs)
+
+    class _F:
+        def __enter__(self) -> "_F":
+            return self
+
+        def __exit__(self, *a: Any) -> bool:
+            return False
+
+        def write(self, t: str) -> None:
+            rows.append(["<raw>", t])
+
+    class _P:
+        def __init__(self, p: str) -> None:
+            self.p = p
+
+        def __truediv__(self, o: str) -> "_P":
+            return _P(self.p + "/" + str(o))
+    vals = {"sc_zero": 0, "sc_fzero": 0.0, "sc_false": False, "sc_empty": "", "sc_null": None, "sc_text": "x", "sc_seven": 7}
+    model = {k: _EO({"name": k, "value": v, "data_type": None}) for k, v in vals.items()}
+    try:
+        _I(P, externals={"open": lambda *a, **k: _F(), "csv.writer": lambda f, **k: _W(), "Path": lambda x: _P(str(x)), "isinstance": lambda o, t: isinstance(o, str)}).call(
+            ss, {"scalars": model, "output_path": "/out"})
+        evaluated = True
+    except (_Un, _Ra) as e:
+        evaluated = False
+        why = str(e)
+    rep.instance("R14.3", "scalar-writer", nontrivial=True, sample={"rows": rows[:9]})
+    if not evaluated:
+        # a writer the evaluator cannot follow (e.g. through a scratch database): fall back to the structural clause
+        loops = [n for n in walk_no_nested(ss.node) if isinstance(n, ast.For) and any(isinstance(x, ast.Name) and x.id == "scalars" for x in ast.walk(n.iter))]
+        if not loops or not any(isinstance(x, ast.Call) and _callee_name(x) == "writerow" for x in ast.walk(loops[0])) or \
+                any(isinstance(x, (ast.Continue, ast.Break)) for x in ast.walk(loops[0])):
+            rep.add(Finding("R14.3", "R14.3/scalar-writer", ss.module.rel, ss.node.lineno, ss.qualname,
+                            f"save_scalars_duckdb must write one row per entry of its argument (no skipping); not evaluable: {why[:80]}"))
+    else:
+        got = {r[0]: r[1] for r in rows if len(r) == 2 and r[0] in vals}
+        want = {k: ("" if v is None else str(v)) for k, v in vals.items()}
+        if got != want:
+            bad = {k: (got.get(k, "<row missing>"), want[k]) for k in want if got.get(k, "<row missing>") != want[k]}
+            rep.add(Finding("R14.3", "R14.3/scalar-writer", ss.module.rel, ss.node.lineno, ss.qualname,
+                            f"_scalars.csv rows written for the scalars {vals}: (written, expected) differs for {bad}: every returned scalar gets one row holding its value as text; "
+                            f"only a null scalar is an empty field (0, 0.0, false and the empty string are values)"))
     rep.analysed = {"fetch_result_nodes": len(g.nodes)}
     rep.assumptions = ["DuckDB COPY (query) TO file writes exactly the rows/columns of the query",
                        "Dataset objects coming from semantic analysis carry data=None"]
